@@ -35,6 +35,38 @@ pub fn opt_sets(m: &Module) -> Vec<(String, String)> {
         "inverse".into(),
         r#"{"transformOn":true,"optimize":false,"mergeProps":false,"enableObjectSlots":false,"resolveType":true,"pragma":"h"}"#.into(),
     ));
+    // a strength-3 covering array over the seven option factors (every combination of values of any
+    // three options occurs in some row), so that a defect that needs a particular option combination
+    // does not hide behind the handful of hand-picked sets above
+    const ROWS: [[u8; 7]; 12] = [
+        [0, 0, 0, 0, 0, 0, 0],
+        [1, 1, 1, 1, 1, 1, 1],
+        [1, 1, 0, 1, 0, 0, 0],
+        [1, 0, 1, 0, 0, 1, 1],
+        [0, 1, 0, 0, 1, 0, 1],
+        [0, 0, 1, 1, 1, 1, 0],
+        [1, 0, 0, 0, 1, 1, 0],
+        [0, 1, 0, 1, 0, 1, 1],
+        [1, 1, 1, 0, 1, 0, 0],
+        [0, 0, 1, 1, 0, 0, 1],
+        [0, 1, 1, 0, 0, 1, 0],
+        [1, 0, 0, 1, 1, 0, 1],
+    ];
+    for (i, r) in ROWS.iter().enumerate() {
+        let b = |x: u8| if x == 1 { "true" } else { "false" };
+        let mut j = format!(
+            r#"{{"transformOn":{},"optimize":{},"mergeProps":{},"enableObjectSlots":{},"resolveType":{}"#,
+            b(r[0]), b(r[1]), b(r[2]), b(r[3]), b(r[4])
+        );
+        if r[5] == 1 {
+            j.push_str(r#","customElementPatterns":["^x-","^El[A-Z]","^unknown-"]"#);
+        }
+        if r[6] == 1 {
+            j.push_str(r#","pragma":"h""#);
+        }
+        j.push('}');
+        v.push((format!("c{i:02}"), j));
+    }
     // drop textual duplicates (keep the first name)
     let mut out: Vec<(String, String)> = vec![];
     for (n, j) in v {
